@@ -8,22 +8,27 @@ V = Path("/verif")
 
 
 def matrix():
-    rows = ["| seed | what it needs to manifest | check of its property (quick tier) | other checks run |",
+    rows = ["| seed | what it needs to manifest | check of its property (quick tier; thorough if missed) | other checks run |",
             "|---|---|---|---|"]
     for f in sorted(glob.glob(str(V / "seeded/*/meta.json"))):
         m = json.load(open(f))
         runs = m["checks_run_against_it"]
         main = runs[0] if runs else {}
-        if main.get("with_failing_input"):
-            res = "VIOLATION with a concrete failing input"
-        elif main.get("rc") == 1:
-            res = "VIOLATION, `no-failing-input-found`"
-        else:
-            res = "**missed**"
+        def verdict(x):
+            if x.get("with_failing_input"):
+                return "VIOLATION with a concrete failing input"
+            if x.get("rc") == 1:
+                return "VIOLATION, `no-failing-input-found`"
+            return "**missed**"
+        res = verdict(main)
+        rest = runs[1:]
+        if rest and rest[0]["cmd"].split()[1] == m["breaks_property"] and "thorough" in rest[0]["cmd"]:
+            res = "missed by the quick tier; thorough tier: " + verdict(rest[0])
+            rest = rest[1:]
         extra = "; ".join(
             f"{r['cmd'].split()[1]}: " + ("passes" if r.get("rc") == 0 else
                                           "VIOLATION" + ("" if r.get("with_failing_input") else " (tie broken, no input)"))
-            for r in runs[1:])
+            for r in rest)
         rows.append(f"| {m['id']} | {m['needs_to_manifest']} | {res} | {extra} |")
     return "\n".join(rows)
 
